@@ -1,7 +1,7 @@
 (* Declarative meaning of a set-equation system: the specification of Closure.compute (util/set/closure.go).
    Prop-valued definitions only (not extracted); proofs are in Closure_proofs.v. *)
 From Coq Require Import List ZArith Bool Arith.
-From TM Require Import Util.IntSet Util.IntSet_proofs Util.Graph Util.Graph_proofs Util.GraphSpec Util.GraphSpec_proofs Util.Closure.
+From TM Require Import Util.IntSet Util.IntSet_proofs Util.Graph Util.Graph_proofs Util.GraphSpec Util.GraphSpec_proofs Util.Closure Util.ClosureCert.
 Import ListNotations.
 
 Definition nd (nodes : list cnode) (v : nat) : cnode := nth v nodes dummy_node.
@@ -70,14 +70,3 @@ Definition tarjan_cert (g : graph) (out : list (list nat * list bool)) : Prop :=
 
 Definition sol_of (st : cst) : valuation := fun v x => den (val_at st v) x.
 
-(* executable well-formedness test of a node list (sound for nodes_wf, see nodes_wfb_sound) *)
-Definition node_okb (nd : cnode) : bool :=
-  sortedb (elems (n_val nd)) &&
-  match n_op nd with
-  | OpUnion => true
-  | OpIntersection => is_empty (n_val nd)
-  | OpComplement => is_empty (n_val nd) && match n_edges nd with [_] => true | _ => false end
-  end.
-
-Definition nodes_wfb (nodes : list cnode) : bool :=
-  graph_wf (closure_graph nodes) && forallb node_okb nodes.
